@@ -6,6 +6,8 @@
 package h3
 
 import (
+	"os"
+	"runtime"
 	"bytes"
 	"context"
 	"crypto/sha256"
@@ -21,8 +23,11 @@ import (
 	"testing/synctest"
 	"time"
 
+	agentconfig "github.com/andydunstall/piko/agent/config"
+	"github.com/andydunstall/piko/agent/reverseproxy"
 	"github.com/andydunstall/piko/client"
 	"github.com/andydunstall/piko/pkg/log"
+	"github.com/gorilla/websocket"
 	"github.com/andydunstall/piko/server"
 	"github.com/andydunstall/piko/server/cluster"
 	"github.com/andydunstall/piko/server/config"
@@ -50,6 +55,7 @@ type app struct {
 	node     int    // node it first connected to (-1 = through the load-balancer name)
 	ln       client.Listener
 	srv      *http.Server
+	agent    *reverseproxy.Server
 	cancel   context.CancelFunc
 	closed   bool
 	goneAway bool
@@ -73,6 +79,7 @@ type respSpec struct {
 	Body   []byte
 	Delay  time.Duration
 	Abort  bool // close the connection without answering
+	WS     bool // accept a WebSocket upgrade, stay silent for Delay, then exchange messages
 }
 
 type world struct {
@@ -199,6 +206,22 @@ func (a *app) ServeHTTP(rw http.ResponseWriter, r *http.Request) {
 	w.reqs[id] = append(w.reqs[id], rec)
 	spec := w.specs[id]
 	w.mu.Unlock()
+	if spec != nil && spec.WS && strings.EqualFold(r.Header.Get("Upgrade"), "websocket") {
+		up := websocket.Upgrader{}
+		c, err := up.Upgrade(rw, r, http.Header{"X-Stamp-Endpoint": {a.endpoint}})
+		if err != nil {
+			return
+		}
+		defer c.Close()
+		// hold the upgraded connection idle for longer than the proxy timeout, then talk
+		time.Sleep(spec.Delay)
+		_ = c.WriteMessage(websocket.TextMessage, []byte("hello after "+spec.Delay.String()))
+		_, msg, err := c.ReadMessage()
+		if err == nil {
+			_ = c.WriteMessage(websocket.TextMessage, append([]byte("echo:"), msg...))
+		}
+		return
+	}
 	rw.Header().Set("X-Stamp-Endpoint", a.endpoint)
 	rw.Header().Set("X-Stamp-App", fmt.Sprint(a.id))
 	if spec == nil {
@@ -289,6 +312,23 @@ func (w *world) listen(endpoint, kind string, nodeIdx int, token string) (*app, 
 			return
 		}
 		a.ln = ln
+		if kind == "agent" {
+			// the application is a plain HTTP service on the simulated network,
+			// reached through piko's agent reverse proxy
+			addr := fmt.Sprintf("10.2.0.%d:9001", a.id%250+1)
+			sln, err := simnet.Listen("tcp", addr)
+			if err != nil {
+				errc <- err
+				return
+			}
+			a.srv = &http.Server{Handler: a}
+			go a.srv.Serve(sln)
+			a.agent = reverseproxy.NewServer(agentconfig.ListenerConfig{EndpointID: endpoint, Addr: addr, Protocol: agentconfig.ListenerProtocolHTTP,
+				Timeout: 5 * time.Minute, AccessLog: log.AccessLogConfig{Level: "info", Disable: true}}, reverseproxy.NewMetrics("agent"), log.NewNopLogger())
+			errc <- nil
+			_ = a.agent.Serve(ln)
+			return
+		}
 		errc <- nil
 		if kind == "tcp" {
 			a.serveTCP()
@@ -318,6 +358,15 @@ func (a *app) shutdown() {
 	if a.ln != nil {
 		a.ln.Shutdown()
 	}
+	if a.agent != nil {
+		sctx, scancel := context.WithTimeout(context.Background(), time.Second)
+		_ = a.agent.Shutdown(sctx)
+		scancel()
+		if a.srv != nil {
+			a.srv.Close()
+		}
+		return
+	}
 	if a.srv != nil {
 		done := make(chan struct{})
 		go func() { a.srv.Close(); close(done) }()
@@ -326,7 +375,19 @@ func (a *app) shutdown() {
 		case <-time.After(5 * time.Second):
 			// the listener was shut down, yet its Accept is still blocked on a live
 			// connection to the server (a reconnect raced with Shutdown)
-			a.w.run.Fail("C16.while", "client-shutdown-left-connection-open", "app %d (%s): 5s after Listener.Shutdown returned its Accept is still blocked on an open connection to the server", a.id, a.endpoint)
+			// Only a connection to a server that is up can keep the upstream
+			// registered; a handshake still pending towards a crashed host
+			// (gorilla does not watch the context while it reads the response)
+			// registers nothing anywhere and is outside C16.
+			if a.w.nw.CountConnsFromToUp(a.host()) > 0 {
+				a.w.run.Fail("C16.while", "client-shutdown-left-connection-open", "app %d (%s): 5s after Listener.Shutdown returned its Accept is still blocked on an open connection to the server", a.id, a.endpoint)
+			} else {
+				a.w.run.Probe("c16.shutdown_during_handshake_to_dead_server")
+			}
+			if os.Getenv("VERIF_STACKS") != "" {
+				buf := make([]byte, 1<<20)
+				os.Stderr.Write(buf[:runtime.Stack(buf, true)])
+			}
 			src := a.host()
 			a.w.nw.ResetConns(func(s, d string) bool { return s == src })
 			<-done
